@@ -49,18 +49,40 @@ type Step struct {
 }
 
 type Node struct {
-	ID    int     `json:"id"`
-	Op    string  `json:"op"`
-	Fam   string  `json:"fam"`
-	N     int     `json:"n,omitempty"`
-	K     int     `json:"k"`
-	Mode  int     `json:"mode,omitempty"`
-	Ex    int     `json:"ex,omitempty"` // 0 default executor, 1 inline, 2 harness queue
-	Kids  []*Node `json:"kids,omitempty"`
-	Body  []*Node `json:"body,omitempty"`
-	Args  []Plain `json:"args,omitempty"`
-	Steps []Step  `json:"steps,omitempty"`
-	size  int     // combinator nodes in the subtree (leaves count 0)
+	ID     int     `json:"id"`
+	Op     string  `json:"op"`
+	Fam    string  `json:"fam"`
+	N      int     `json:"n,omitempty"`
+	K      int     `json:"k"`
+	Mode   int     `json:"mode,omitempty"`
+	Ex     int     `json:"ex,omitempty"` // 0 default executor, 1 inline, 2 harness queue
+	Kids   []*Node `json:"kids,omitempty"`
+	Body   []*Node `json:"body,omitempty"`
+	Args   []Plain `json:"args,omitempty"`
+	Steps  []Step  `json:"steps,omitempty"`
+	Cap    int     `json:"tamper_input,omitempty"` // capture scenario: what the harness does to the caller-owned input after the call (cap* bits)
+	RefID  int     `json:"ref_id,omitempty"`       // Fam "ref": ID of the node whose future is used a second time
+	size   int     // combinator nodes in the subtree (leaves count 0)
+	ref    *Node   // Fam "ref": the target node
+	origin *Node   // synthetic node of a second combinator call: the node whose input object it re-uses
+}
+
+// bits of Node.Cap
+const (
+	capPoison      = 1 // overwrite the elements of the caller's slice / of the buffer behind the iterator; read the iterator further
+	capAppend      = 2 // append to the caller's slice / feed further elements to the iterator
+	capSecond      = 4 // use the same input object for a second, different combinator call
+	capSecondAfter = 8 // ... after the poisoning instead of before it
+)
+
+// listInput reports whether the family takes a slice / fp.Seq / iterator / list of inputs.
+func listInput(fam string) bool {
+	switch fam {
+	case "Sequence", "SequenceIterator", "Traverse", "TraverseSeq", "TraverseSlice", "TraverseFunc", "TraverseSeqFunc", "TraverseSliceFunc",
+		"FlatMapTraverseSeq", "FlatMapTraverseSlice", "iterator.FoldFuture", "seq.FoldFuture", "list.FoldFuture":
+		return true
+	}
+	return false
 }
 
 // step kinds of the builders
@@ -97,7 +119,7 @@ type entry struct {
 func shape(e entry) (kids int, bodies []int, args int) {
 	n := e.N
 	switch e.Fam {
-	case "src", "Successful", "Failed", "arg", "FromTry", "FromOption", "Apply", "Apply2":
+	case "src", "Successful", "Failed", "arg", "FromTry", "FromOption", "Apply", "Apply2", "srcidx", "ref", "expect":
 		return 0, nil, 0
 	case "Func", "Unit":
 		return 0, nil, n
@@ -263,10 +285,19 @@ func hitNames() []string {
 // ---- generation -----------------------------------------------------------------------
 
 type Tree struct {
-	Root *Node  `json:"root"`
-	NSrc int    `json:"nsrc"`
-	Text string `json:"text"`
-	Size int    `json:"size"`
+	Root   *Node  `json:"root"`
+	NSrc   int    `json:"nsrc"`
+	Text   string `json:"text"`
+	Size   int    `json:"size"`
+	Kind   string `json:"kind,omitempty"` // "" classic, wide, capture, dag
+	Wide   int    `json:"wide_elements,omitempty"`
+	HasCap bool   `json:"has_tampered_input,omitempty"`
+	NRef   int    `json:"shared_uses,omitempty"`
+}
+
+type availNode struct {
+	n     *Node
+	depth int
 }
 
 type gen struct {
@@ -274,10 +305,17 @@ type gen struct {
 	nsrc   int
 	nextID int
 	nused  int
+	cap    bool        // capture trees: every list-input node gets a tamper script, 0..8 elements
+	dag    bool        // dag trees: operands may be second uses of an earlier node's future
+	avail  []availNode // dag: nodes whose future exists when the node being generated is built
+	nref   int
+	ncap   int
 }
 
-func genTree(r *rand.Rand, root entry, maxSize int) *Tree {
-	g := &gen{r: r, nsrc: 1 + r.IntN(4)}
+func genTree(r *rand.Rand, root entry, maxSize int) *Tree { return genTreeKind(r, root, maxSize, "") }
+
+func genTreeKind(r *rand.Rand, root entry, maxSize int, kind string) *Tree {
+	g := &gen{r: r, nsrc: 1 + r.IntN(4), cap: kind == "capture", dag: kind == "dag"}
 	budget := 1 + r.IntN(maxSize)
 	if budget < 2 && r.IntN(4) != 0 {
 		budget = 2
@@ -309,7 +347,7 @@ func genTree(r *rand.Rand, root entry, maxSize int) *Tree {
 		}
 	}
 	walk(n)
-	t := &Tree{Root: n, NSrc: len(remap)}
+	t := &Tree{Root: n, NSrc: len(remap), Kind: kind, HasCap: g.ncap > 0, NRef: g.nref}
 	t.Text = n.String()
 	t.Size = n.size
 	return t
@@ -322,7 +360,20 @@ func (g *gen) plain(depth int) Plain {
 	return Plain{K: 1 + g.r.IntN(9)}
 }
 
+// refLeaf makes a second use of the future of an earlier node of the same strict region (or
+// of an enclosing one): the derived future becomes an operand at two positions.
+func (g *gen) refLeaf(depth int) *Node {
+	a := g.avail[g.r.IntN(len(g.avail))]
+	n := &Node{ID: g.nextID, Fam: "ref", Op: a.n.Op, K: depth - a.depth, RefID: a.n.ID, ref: a.n}
+	g.nextID++
+	g.nref++
+	return n
+}
+
 func (g *gen) leaf(depth int) *Node {
+	if g.dag && len(g.avail) > 0 && g.r.IntN(100) < 40 {
+		return g.refLeaf(depth)
+	}
 	n := &Node{ID: g.nextID}
 	g.nextID++
 	x := g.r.IntN(100)
@@ -365,6 +416,9 @@ func (g *gen) node(budget, depth int) *Node {
 	if budget <= 0 {
 		return g.leaf(depth)
 	}
+	if g.dag && len(g.avail) > 0 && g.r.IntN(100) < 12 {
+		return g.refLeaf(depth)
+	}
 	// candidates that fit: any entry; arity families are clipped by fromEntry
 	e := entries[g.r.IntN(len(entries))]
 	return g.fromEntry(e, budget, depth)
@@ -391,6 +445,14 @@ func (g *gen) fromEntry(e entry, budget, depth int) *Node {
 	case "Apply", "FromTry", "FromOption", "ComposeOption", "ComposeTry":
 		n.Mode = g.r.IntN(2)
 	}
+	if g.cap && listInput(e.Fam) {
+		n.N = g.r.IntN(9)
+		n.Cap = 1 + g.r.IntN(15)
+		if n.Cap&7 == 0 {
+			n.Cap |= capPoison | capAppend
+		}
+		g.ncap++
+	}
 	ee := e
 	ee.N, ee.Mode = n.N, n.Mode
 	kids, bodies, args := shape(ee)
@@ -403,7 +465,10 @@ func (g *gen) fromEntry(e entry, budget, depth int) *Node {
 			n.Kids = append(n.Kids, g.node(parts[i], depth))
 		}
 		for j, ext := range bodies {
+			// nodes generated inside a body are built lazily (or never): not available outside
+			mark := len(g.avail)
 			n.Body = append(n.Body, g.node(parts[kids+j], depth+ext))
+			g.avail = g.avail[:mark]
 		}
 		for i := 0; i < args; i++ {
 			n.Args = append(n.Args, g.plain(depth))
@@ -423,6 +488,9 @@ func (g *gen) fromEntry(e entry, budget, depth int) *Node {
 		if s.Body != nil {
 			n.size += s.Body.size
 		}
+	}
+	if g.dag && (n.size > 0 || g.r.IntN(3) == 0) {
+		g.avail = append(g.avail, availNode{n, depth})
 	}
 	return n
 }
@@ -447,15 +515,21 @@ func (g *gen) steps(n *Node, rest, depth int) {
 		case stApTry, stApOption, stApTryFunc, stApOptionFunc:
 			st.Fail = g.r.IntN(4) == 0
 		case stApFutureFunc:
+			mark := len(g.avail)
 			st.Body = g.node(parts[i], depth)
+			g.avail = g.avail[:mark]
 		case stFlatMap:
 			ext := 1
 			if i == 0 {
 				ext = 0
 			}
+			mark := len(g.avail)
 			st.Body = g.node(parts[i], depth+ext)
+			g.avail = g.avail[:mark]
 		case stHListFlatMap:
+			mark := len(g.avail)
 			st.Body = g.node(parts[i], depth+i)
+			g.avail = g.avail[:mark]
 		}
 		n.Steps = append(n.Steps, st)
 	}
@@ -485,6 +559,15 @@ func (n *Node) render(b *strings.Builder) {
 	case "Failed":
 		fmt.Fprintf(b, "Failed(e%d)", n.K)
 		return
+	case "srcidx":
+		fmt.Fprintf(b, "src[$%d%%%d]", n.K, n.N)
+		return
+	case "ref":
+		fmt.Fprintf(b, "@#%d", n.RefID)
+		return
+	case "expect":
+		fmt.Fprintf(b, "%s#%d[second call of the harness on the input object of #%d, immediate futures only]", n.Op, n.ID, n.origin.ID)
+		return
 	}
 	b.WriteString(n.Op)
 	fmt.Fprintf(b, "#%d[k=%d", n.ID, n.K)
@@ -493,6 +576,12 @@ func (n *Node) render(b *strings.Builder) {
 	}
 	if n.Ex != 0 {
 		fmt.Fprintf(b, ",ex=%s", exNames[n.Ex])
+	}
+	if n.Cap != 0 {
+		fmt.Fprintf(b, ",tamper=%d", n.Cap)
+	}
+	if n.origin != nil {
+		fmt.Fprintf(b, ",second call on the input object of #%d", n.origin.ID)
 	}
 	switch n.Fam {
 	case "Traverse", "TraverseSeq", "TraverseSlice", "TraverseFunc", "TraverseSeqFunc", "TraverseSliceFunc", "FlatMapTraverseSeq", "FlatMapTraverseSlice", "iterator.FoldFuture", "seq.FoldFuture", "list.FoldFuture", "MapSeqLift", "MapSliceLift":
